@@ -158,7 +158,7 @@ Theorem c07_clean_stop_is_full_prefix : forall d h,
 Proof. exact crash_full. Qed.
 Print Assumptions c07_clean_stop_is_full_prefix.
 
-(** reopening a complete store (the 26 idempotent schema statements, no
+(** reopening a complete store (the 27 idempotent schema statements, no
     default-mailbox transaction) changes nothing *)
 Theorem c07_reopen_changes_nothing : forall d t1 t2 t3 t4 t5,
   d_file d = true -> d_schema d = NSCHEMA -> mboxes (d_st d) <> [] ->
